@@ -617,5 +617,10 @@ func (sm *SeatManager) Next() error {
 		return ErrInsufficientNumberOfPlayers
 	}
 
+	// A dealer alone can not play a hand (nobody is left to take the blinds)
+	if sm.getPlayableSeatCount() < 2 {
+		return ErrInsufficientNumberOfPlayers
+	}
+
 	return sm.renewSeatStatus()
 }
